@@ -622,14 +622,14 @@ Proof.
         by (destruct ok; [apply ext_debug_total, Hok'|reflexivity]).
       rewrite Hd. cbn [bind]. eexists _, true. split; [reflexivity|].
       cbn [p_ext p_diag]. repeat split; try assumption; try discriminate; try apply Hok'.
-      rewrite Hho. cbn [andb]. rewrite <- Hflag. cbn [andb].
+      rewrite Hho. cbn [andb]. cbv zeta. rewrite <- Hflag.
       rewrite skipn_length in Hokv. rewrite <- Hokv.
       destruct ok.
       * destruct (Hst eq_refl) as [V _]. rewrite V. apply opt_bytes_eqb_refl.
       * rewrite (Hno eq_refl). apply opt_bytes_eqb_refl.
     + eexists _, true. split; [reflexivity|]. cbn [p_ext p_diag].
       repeat split; try apply Hok; try discriminate.
-      rewrite Hho. cbn [andb]. rewrite <- Hflag. cbn [andb]. apply opt_bytes_eqb_refl.
+      rewrite Hho. cbn [andb]. cbv zeta. rewrite <- Hflag. rewrite opt_bytes_eqb_refl. reflexivity.
 Qed.
 
 Lemma replies_total : forall rs s, ext_ok (p_ext s) -> Forall reply_bytes rs ->
